@@ -293,6 +293,9 @@ func runCheck(opts checkOpts) (int, map[string]any) {
 		r.R = res[i]
 		solverTime += r.R.Time
 		slows = append(slows, slow{r.O.Name, r.R.Time})
+		if r.R.Status == "error" {
+			return fail("solver error on " + r.O.Name + " (" + r.File + "): " + truncate(r.R.Output, 300))
+		}
 		if r.R.Status == "disagree" {
 			return fail("solvers disagree on " + r.O.Name)
 		}
